@@ -20,7 +20,7 @@ VERIF = os.path.dirname(os.path.dirname(os.path.abspath(__file__)))
 if VERIF not in sys.path:
     sys.path.insert(0, VERIF)
 
-from harness import run, scenario, tracecheck, tlc, genmc, replay_model, families, run_api  # noqa: E402
+from harness import run, scenario, tracecheck, tlc, genmc, replay_model, families, run_api, funcs  # noqa: E402
 from harness.world import HarnessError  # noqa: E402
 
 NCPU = int(os.environ.get("VERIF_JOBS", "16"))
@@ -965,6 +965,140 @@ def check_C13(ctx):
                            "another host and from the same host)")
 
 
+def _obs_task(task):
+    kind, args = task
+    try:
+        return getattr(funcs, kind)(*args)
+    except Exception as e:
+        return {"_driver_error": f"{type(e).__name__}: {e}", "tb": traceback.format_exc(), "task": [kind, str(args)[:300]]}
+
+
+def run_obs(tasks):
+    """Execute the real code on enumerated inputs (function-level properties) in the worker pool."""
+    ctxmp = multiprocessing.get_context("fork")
+    with ctxmp.Pool(NCPU, initializer=_worker_init) as pool:
+        res = pool.map(_obs_task, tasks, chunksize=8)
+    errs = [r for r in res if isinstance(r, dict) and "_driver_error" in r]
+    if errs:
+        raise HarnessError("observation driver failed: " + errs[0]["_driver_error"] + "\n" + errs[0]["tb"])
+    return res
+
+
+def judge_obs(ctx, module, cfg, obs, clauses, what, tasks=None):
+    """TLC validates the recorded (input, output) observations against the specification's operators."""
+    verdicts, st = funcs.validate(module, cfg, obs, shards=NCPU)
+    ctx.tlc_states += st["tlc_states"]
+    ctx.clauses.setdefault(ctx.prop, set()).update(clauses)
+    for o, v in zip(obs, verdicts):
+        ctx.traces += 1
+        ctx.distinct.add(hashlib.sha1(json.dumps(o, sort_keys=True).encode()).hexdigest())
+        for c in clauses:
+            ctx.cnt[c] = ctx.cnt.get(c, 0) + 1
+        for c in v:
+            k = None
+            for kf in ctx.known:
+                if kf["property"] == ctx.prop and c in kf["clauses"] and all(o.get(f) == val for f, val in kf.get("obs_has", {}).items()) \
+                        and kf.get("obs_has") is not None:
+                    k = kf
+            if k:
+                ctx.known_hits.append((k["id"], c))
+                continue
+            d = os.path.join(VERIF, "out", "replays")
+            os.makedirs(d, exist_ok=True)
+            h = hashlib.sha1(json.dumps(o, sort_keys=True).encode()).hexdigest()[:10]
+            path = os.path.join(d, f"{ctx.prop}_{c}_{h}.json")
+            with open(path, "w") as f:
+                json.dump({"property": ctx.prop, "clause": c, "observation": o, "module": module, "cfg": cfg,
+                           "task": (list(tasks[o["id"]]) if tasks else None)}, f)
+            ctx.viol.append((c, path))
+    if len(ctx.samples) < 4 and obs:
+        ctx.samples.append({"kind": "observation of the real code (" + what + ")", "observation": obs[len(obs) // 2]})
+
+
+def check_C20(ctx):
+    q = ctx.tier == "quick"
+    ctx.model("Reports statistics machine (all sample sequences <=5 over 0..3)", "Reports", "Reports_machine.cfg", workers=4)
+    rng = random.Random(ctx.seed)
+    tasks = []
+    for seq in funcs.stats_inputs(4 if q else 5, 3):
+        tasks.append(("run_stats", (seq, False)))
+        tasks.append(("run_stats", (seq, True)))
+    tasks += [("run_events", (f,)) for f in funcs.event_inputs(rng, 300 if q else 4000)]
+    obs = run_obs(tasks)
+    judge_obs(ctx, "Reports", "Reports_obs.cfg", obs,
+              {"TrueMinimum", "TrueMaximum", "TrueMean", "SampleCount", "EveryNameConsolidated", "EventsLosslessOrdered",
+               "ConsolidationIdempotent"}, "resource statistics / event consolidation", tasks=tasks)
+    # the four-way tally of results.json, on whole submissions (incl. missing and canceled jobs)
+    kw = dict(n_min=2, n_max=6, groups_max=1)
+    trs = run_tasks([("random_nodefaults", (s, kw)) for s in seeds(ctx, 120 if q else 1500, 91)])
+    mine = set(ctx.clauses.get("C20", set())) | {"TallyPartition"}
+    ctx.judge(trs, "random submissions with failing, canceled and missing jobs (results.json tallies)", clauses=mine)
+    return ctx.finish(rule="all sample sequences of length <=4 (thorough 5) over {0,1,2,3} fed to the real ResourceMonitorAggregator "
+                           "(node and per-process statistics, sampler stubbed); random multisets of <=5 events over 2 names, 3 "
+                           "timestamps, <=3 files written with the real StructuredLogEvent and consolidated twice with the real "
+                           "EventsSummary; results.json tallies of whole submissions; every observation validated by TLC against "
+                           "Reports.tla / JadeMonitor.tla", exhaustive=False)
+
+
+def check_C18(ctx):
+    q = ctx.tier == "quick"
+    ctx.model("Slurm retry machine (retries 0..6, all outcome sequences)", "Slurm", "Slurm_machine.cfg", workers=4)
+    rng = random.Random(ctx.seed)
+    tasks = [("run_retry", x) for x in funcs.retry_inputs(4 if q else 6)]
+    tasks += [("run_script", (f,)) for f in funcs.script_inputs()]
+    tasks += [("run_squeue", x) for x in funcs.squeue_inputs(rng, 300 if q else 5000)]
+    tasks += [("run_submit", (c,)) for c in funcs.SUBMIT]
+    obs = run_obs(tasks)
+    judge_obs(ctx, "Slurm", "Slurm_obs.cfg", obs,
+              {"RetryBound", "StopsAtFirstSuccessOrPermanent", "ResultIsLastAttempt", "ScriptDirectivesExact", "ScriptDirectiveOnce",
+               "ScriptRunsRunScript", "ActiveNeverFinished", "StatusRowsParsed", "SubmitResponseParsed"},
+              "retry loop / submission script / status decision / submit response", tasks=tasks)
+    return ctx.finish(rule="all 2^9 set/unset combinations of the optional SLURM fields (real create_submission_script); every SLURM "
+                           "state for the queried id alone and among other rows in 4 whitespace renderings plus random outputs of "
+                           "<=3 rows (real _get_statuses_from_output + AsyncHpcSubmitter.is_complete); 7 classes of sbatch answers "
+                           "(real SlurmManager.submit); all outcome sequences of a retried command for 0..4 (thorough 0..6) retries "
+                           "with and without a listed permanent error (real run_command with a scripted process); validated by TLC "
+                           "against Slurm.tla", exhaustive=True)
+
+
+def check_C19(ctx):
+    q = ctx.tier == "quick"
+    ctx.model("Launch tokenizer (all strings <=5 over 7 symbols)", "Launch", "Launch_machine.cfg", workers=8)
+    rng = random.Random(ctx.seed)
+    tasks = [("run_launch", x) for x in funcs.launch_inputs(5 if q else 6, rng, sample_last=3000 if q else 40000)]
+    obs = run_obs(tasks)
+    ctx.extra["commands_out_of_scope"] = sum(1 for o in obs if not o["cmd"])
+    judge_obs(ctx, "Launch", "Launch_obs.cfg", obs,
+              {"WellFormedCommandLaunches", "ArgvIsShellSplit", "JadeArgumentsAppended", "LaunchEnvironment", "OwnStdioFiles",
+               "ResultCarriesRealExitStatus"}, "job launch", tasks=tasks)
+    return ctx.finish(rule="every command string of length <=4 and a sample of length 5 (thorough: all of length 5, sample of 6) over "
+                           "{a, c, space, ', \", backslash, $}, crossed by rotation with 4 legal job names (letters, digits, _ . -), the "
+                           "4 append_* combinations and exit codes incl. 0,1,2,127,128,255 and k*7 mod 256; executed on the real "
+                           "GenericCommandParameters / generate_command / AsyncCliCommand.run+_complete / ResultsAggregator with "
+                           "subprocess.Popen captured; validated by TLC against Launch.tla (Split = POSIX word splitting); ill-formed "
+                           "commands (Split.ok = FALSE) are outside the property")
+
+
+def check_C17(ctx):
+    q = ctx.tier == "quick"
+    rng = random.Random(ctx.seed)
+    cfgs = funcs.config_inputs(rng, 150 if q else 2500)
+    tasks = [("run_config", (c,)) for c in cfgs]
+    obs = run_obs(tasks)
+    ctx.extra["valid_bases"] = sum(1 for o in obs if o["accepted"])
+    judge_obs(ctx, "ConfigCheck", "ConfigCheck_obs.cfg", obs,
+              {"ValidAccepted", "InvalidRejected", "RejectedBeforeHandOver", "RoundTripLossless", "ValidDumpsAndLoads"},
+              "configuration round trip and validation", tasks=tasks)
+    return ctx.finish(level="exploration",
+                      rule="random abstract configurations over the public job and group models (1-3 jobs, explicit or automatic "
+                           "names, string or integer blockers, optional fields set/unset, lifecycle commands, 1-3 groups) and, for "
+                           "each, every single injected invalidity (nonexistent blocker, duplicate job name, unknown group, group-"
+                           "wide max_nodes / poll_interval / hpc_type mismatch, duplicate group name, estimate above the walltime); "
+                           "built with the real models, dumped, loaded with create_config_from_file, submitted through "
+                           "JobSubmitter.run_submit_jobs with a counting sbatch stub; verdicts decided by TLC with Valid(cfg) of "
+                           "ConfigCheck.tla")
+
+
 def pipeline_clauses():
     txt = open(os.path.join(VERIF, "spec", "PipelineMonitor.tla")).read()
     body = txt[txt.index("C15Clauses =="):]
@@ -986,7 +1120,7 @@ def check_C15(ctx):
                            "PipelineMonitor.tla")
 
 
-CHECKS = {"C15": check_C15, "C13": check_C13, "C16": check_C16, "C14": check_C14, "C01": check_C01, "C07": check_C07, "C08": check_C08, "C10": check_C10, "C11": check_C11, "C12": check_C12}
+CHECKS = {"C17": check_C17, "C19": check_C19, "C18": check_C18, "C20": check_C20, "C15": check_C15, "C13": check_C13, "C16": check_C16, "C14": check_C14, "C01": check_C01, "C07": check_C07, "C08": check_C08, "C10": check_C10, "C11": check_C11, "C12": check_C12}
 for _i, _p in enumerate(["C03", "C04", "C05"]):
     CHECKS[_p] = make_protocol_check(10 + _i)
 CHECKS["C02"] = make_protocol_check(14, extra=histories_extra)     # dependency order also when jobs are rerun
